@@ -13,6 +13,8 @@ Select(a, b) == St("select", a, b, "")
 Reset(a, b) == St("reset", a, b, "")
 PollDrop(a) == St("polldrop", a, 0, "")
 Twin(a) == St("twin", a, 0, "")
+HandPoll(a) == St("handpoll", a, 0, "")
+Yield == St("yield", 0, 0, "")
 IvlNew(p, mode) == St("ivlnew", p, 0, mode)
 IvlAt(start, p, mode) == St("ivlnew", p, start, mode)
 IvlReset == St("ivlreset", 0, 0, "")
@@ -54,6 +56,11 @@ ProgsChan == {[t \in Tasks |-> IF t = 1 THEN p1 ELSE p2 \o <<Sleep(1)>>] : p1 \i
 LifeSteps1 == {Sleep(1), Sleep(2), Restart(1), Restart(3), ToSleep(3, 1)}
 LifeSteps2 == {Sleep(1), Sleep(3), Sleep(4), ToNever(2), Select(2, 5)}
 ProgsLife == {[t \in Tasks |-> IF t = 1 THEN p1 \o <<Sleep(1)>> ELSE p2 \o <<Sleep(2)>>] : p1 \in Seqs(LifeSteps1, 3), p2 \in Seqs(LifeSteps2, 2)}
+(* recorded findings: a sleep first polled with a foreign waker (F-C05-2), yield_now inside a task (F-C06-2) *)
+ProgsHandPoll == {[t \in Tasks |-> IF t = 1 THEN <<HandPoll(2), Sleep(1)>> ELSE <<Sleep(1), Sleep(3)>>]}
+ProgsYield == {[t \in Tasks |-> IF t = 1 THEN <<Sleep(1), Yield, Sleep(1)>> ELSE <<Sleep(3)>>],
+               [t \in Tasks |-> IF t = 1 THEN <<Yield, Yield, Sleep(2)>> ELSE <<Sleep(1), Yield>>]}
+
 (* C13: panics inside tasks (joined with join / try_join / not at all): confined to the task *)
 PanicSteps1 == {Sleep(1), Sleep(2), Send(1), PanicT, SendSelf(1), Recv(0)}
 PanicSteps2 == {Recv(1), ToRecv(2, 1), Sleep(1), Sleep(3), PanicT}
